@@ -197,6 +197,7 @@ def term(node, depth=0):
         if e in ("big", "repr"):
             d = {"k": "c", "n": 0, "d": 0}
             d.update(big_digits(node.value))
+            d["xf"] = 1 if e == "repr" else 0          # 1: a float shown by its shortest decimal (inexact if computed), 0: an exact integer
             return d
         return {"k": "c", "n": a, "d": b}
     if k == "v":
